@@ -38,6 +38,7 @@ PROGRAM_CFG = {
     'effects': ['out', 'out', 'status', 'callsoon'],
     'selfacts': ['pause', 'kill'],
     'p_selfact': 0.1,
+    'p_required_output': 0.2,
 }
 _sys_cache = {}
 
@@ -83,6 +84,8 @@ def random_case(rng, tier):
     opts = {'cleanups': rng.randint(1, 3)}
     if rng.random() < 0.3:
         opts['oneshot'] = True
+    if rng.random() < 0.3:
+        opts['register_twice'] = True
     return {'program': program, 'schedule': schedule, 'opts': opts}
 
 
